@@ -643,17 +643,16 @@ ElemNumber::getCountString(
 
         if (eAny == m_level)
         {
+            // The list has length one whatever the count is, also
+            // when no node matches (XSLT 7.7): that is the number 0.
             const CountType     theNumber =
                 countNode(executionContext, ctable, sourceNode);
 
-            if (theNumber != 0)
-            {
-                formatNumberList(
-                    executionContext,
-                    &theNumber,
-                    1,
-                    theResult);
-            }
+            formatNumberList(
+                executionContext,
+                &theNumber,
+                1,
+                theResult);
         }
         else
         {
